@@ -1,4 +1,5 @@
 SPECIFICATION Spec
 CONSTANTS MaxLines = 4
           Shapes <- ShapesCore
-INVARIANTS NormalFormIsFixedPoint NormalIsClean RulesAreInputLines HTMLFirstFails BinaryFails Deterministic
+          Endings <- EndingsLFCR
+INVARIANTS Statement
